@@ -602,6 +602,11 @@ class Class(metaclass=mixin.MixinMeta):  # pylint: disable=undefined-variable
   def compute_mro(self):
     """Compute the class precedence list (mro) according to C3."""
     bases = abstract_utils.get_mro_bases(self.bases())
+    # Like CPython ("TypeError: duplicate base class"), refuse a class that
+    # lists the same class twice among its bases.
+    for i, base in enumerate(bases):
+      if isinstance(base, Class) and any(base is b for b in bases[:i]):
+        raise mro.MROError([[self], list(bases)])
     bases = [[self]] + [list(base.mro) for base in bases] + [list(bases)]
     base2cls = {}
     newbases = []
